@@ -36,6 +36,7 @@ structure DState where
   lastK : Option Nat := none
   expectCom : Option String := none
   expectVer : Option String := none
+  expectEmission : Option Int := none   -- the emission counter the EndBlock model predicts for the next commit
   comTable : List (String × Int) := []
   tickers : List (String × String) := []   -- ticker ↦ owner as it follows from the accepted transactions (RestartMonitor.ownerGate)
   nCommits : Nat := 0
@@ -353,6 +354,9 @@ partial def loop (h : IO.FS.Stream) (out : IO.FS.Stream) (ds : DState) : IO Unit
       if kind == "init" then
         ds := { ds with tickers := tickersOfDump d }
       if kind == "commit" then
+        match ds.expectEmission with
+        | some em => if st.emission != em then out.putStrLn s!"MISMATCH C01 end emission model={em} go={st.emission}"
+        | none => pure ()
         match ds.committed with
         | some prev =>
           if !baseDeltaOk prev st then
@@ -374,7 +378,7 @@ partial def loop (h : IO.FS.Stream) (out : IO.FS.Stream) (ds : DState) : IO Unit
         | none => pure ()
       out.putStrLn s!"OK {kind} coins={st.coins.length} base={baseTotal st} emission={st.emission} modelled={ds.nModelled} unmodelled={ds.nUnmodelled} skipped={ds.nStaleSkipped} oracle={ds.nOracle}"
       -- resync the model with the committed Go state (EndBlock is not modelled yet)
-      ds := { ds with committed := some st, nCommits := ds.nCommits + 1, model := some { st with rewardsPool := 0 }, touched := [], oracle := [], staleOther := false, pendingMerge := false, expectCom := none, expectVer := none, comTable := st.commission }
+      ds := { ds with committed := some st, nCommits := ds.nCommits + 1, model := some { st with rewardsPool := 0 }, touched := [], oracle := [], staleOther := false, pendingMerge := false, expectCom := none, expectVer := none, expectEmission := none, comTable := st.commission }
     else if kind == "end" then
       match before with
       | some old =>
@@ -384,6 +388,25 @@ partial def loop (h : IO.FS.Stream) (out : IO.FS.Stream) (ds : DState) : IO Unit
           out.putStrLn v
         ds := { ds with expectCom := winnerAt old ds.begin.signed ds.begin.height old.cvotes,
                         expectVer := winnerAt old ds.begin.signed ds.begin.height old.uvotes }
+        -- C01 block level: the EndBlock model (MinterModel/Block.lean) on the live state before EndBlock against the live state after it
+        let changedKeys := match ds.committed with
+          | some prev => old.candidates.any (fun c => prev.candidates.any (fun d => d.id == c.id && d.pubkey != c.pubkey))
+          | none => false
+        let newVersion : Option String :=
+          if new.versions == old.versions then none
+          else match ((new.versions.splitOn ",").getLast?.getD "").splitOn "@" with
+            | [nm, _] => some nm
+            | _ => none
+        let ereq : EndReq := { height := ds.begin.height, signed := ds.begin.signed, changedKeys := changedKeys,
+                               newCommission := if comDigest new.commission != comDigest old.commission then some new.commission else none,
+                               newVersion := newVersion }
+        match endCompare ds.params old new ereq with
+        | .ok r =>
+          for v in r.msgs do out.putStrLn v
+          ds := { ds with expectEmission := some r.emission }
+        | .error (.panic w) => out.putStrLn s!"MISMATCH C01 end h={ds.begin.height} model-predicts-panic={w.replace " " "_"} go=continued"
+        | .error (.unmodelled w) => out.putStrLn s!"FAIL end unmodelled {w.replace " " "_"}"
+        | .error (.need _) => out.putStrLn s!"FAIL end oracle"
         let setChanged := (new.validators.map (·.pubkey)) != (old.validators.map (·.pubkey))
         if setChanged || ds.begin.height % ds.params.period == 0 then
           for v in validatorSetModel new do
